@@ -320,6 +320,9 @@ func runTape(p *core.Property, rf *ReplayFile, tp []uint32, trace bool) *core.Ru
 	if mirrorBuf != nil {
 		tpe.Mirror(mirrorBuf)
 	}
+	current.Store(int64(rf.Index))
+	currentStart.Store(time.Now().Unix()) // arms the watchdog for replays too
+	defer currentStart.Store(0)
 	r := core.NewRun(tpe, rf.Tier, rf.Index, rf.Seed)
 	if len(rf.Tape) == 0 && len(rf.Scenario) > 0 {
 		r.Scenario = rf.Scenario
